@@ -36,10 +36,13 @@ type vProfile struct {
 	distinct   bool // assume all produced single keys pairwise distinct
 	noMissing  bool // assume every Invoke has all required deps
 	callbacks  bool
-	lateScopes bool // scopes may also be created after registrations
-	quietCalls bool // call String/Visualize after every registration
-	as         bool // concrete As results and interface-typed parameters
-	decor2     bool // decorators may decorate two keys / take an extra parameter
+	lateScopes bool  // scopes may also be created after registrations
+	quietCalls bool  // call String/Visualize after every registration
+	as         bool  // concrete As results and interface-typed parameters
+	decor2     bool  // decorators may decorate two keys / take an extra parameter
+	objOnly    bool  // all parameters of invoked functions are object fields
+	lateAfter  int   // the late registrations follow Invoke number lateAfter (0-based)
+	regKinds   []int // if set: the kind (vCtor / vDecor) of the i-th registration is fixed
 }
 
 type vHist struct {
@@ -50,9 +53,10 @@ type vHist struct {
 	invF  *vFunc
 	invS  int
 
-	wRecover bool
-	wDefer   bool
-	nScopes  int
+	wRecover   bool
+	wDefer     bool
+	nScopes    int
+	nRegsDrawn int
 }
 
 func (h *vHist) enabled(clause string) bool {
@@ -74,7 +78,9 @@ var vNames = []string{"", "a", "b"}
 
 func (h *vHist) genParam(tag string, allowGroup bool) *vParam {
 	p := &vParam{}
-	if h.p.pForms > 1 {
+	if h.p.objOnly {
+		p.form = 1
+	} else if h.p.pForms > 1 {
 		p.form = verifNdInt(tag+".form", h.p.pForms)
 	}
 	if h.p.as {
@@ -131,12 +137,15 @@ func (h *vHist) genFunc(kind int, tag string) *vFunc {
 			k.form, r.form = 1, 1
 			k.name, r.name = "", ""
 			k.group, r.group = "g", "g"
-			r.flatten = 0
+			r.whole = true
+			r.flatten = 1 + verifNdInt(tag+".dglen", 3)
 		}
 		f.params = append(f.params, k)
 		f.results = append(f.results, r)
 		if h.p.decor2 {
-			switch verifNdInt(tag+".dshape", 3) {
+			switch verifNdInt(tag+".dshape", 4) {
+			case 3: // no input at all: replaces the value
+				f.params = nil
 			case 1: // an extra dependency
 				f.params = append(f.params, &vParam{t: verifNdType(tag + ".dx"), form: k.form})
 			case 2: // decorates a second key
@@ -290,6 +299,8 @@ func (h *vHist) checkEnter(w *vWorld, e *vExec) {
 	for _, o := range r.execs {
 		if o != e {
 			h.assert("C02.once", !(o.done && o.outcome == vOK))
+			h.assert("C10.once", !(o.done && o.outcome == vOK))
+			h.assert("C12.once", !(o.done && o.outcome == vOK))
 		}
 	}
 	h.assert("C17.norun", !w.dry)
@@ -580,6 +591,9 @@ func (h *vHist) afterInvoke(w *vWorld, r *vReg, o vOutcome, cl *vClosure, before
 		h.assert("C01.once", ran == 0)
 	}
 	h.assert("C13.cycle", (o.class == vcCycle) == (o.err != nil && IsCycleDetected(o.err)))
+	if !w.resCyc && !w.permCyc {
+		h.assert("C13.nocycle", o.class != vcCycle)
+	}
 	if h.enabled("C05s.") {
 		if w.resCyc {
 			h.assert("C05s.invoke", o.class == vcCycle)
@@ -589,6 +603,9 @@ func (h *vHist) afterInvoke(w *vWorld, r *vReg, o vOutcome, cl *vClosure, before
 			h.assert("C05s.nofalse", o.class != vcCycle)
 		}
 		h.assert("C05s.nopanic", o.class != vcPanicked)
+	}
+	if len(failed) == 0 && !w.deferV && !w.resCyc {
+		h.assert("C08.visible", (o.class == vcOK) == !cl.missing)
 	}
 	if cl.missing {
 		if len(failed) == 0 {
@@ -701,9 +718,14 @@ func (h *vHist) genReg(ops []vOp, tag string) []vOp {
 			nd++
 		}
 	}
-	if nd < h.p.decorators && verifNdBool(tag+".isdecor") {
+	if len(h.p.regKinds) > 0 {
+		if h.nRegsDrawn < len(h.p.regKinds) {
+			kind = h.p.regKinds[h.nRegsDrawn]
+		}
+	} else if nd < h.p.decorators && verifNdBool(tag+".isdecor") {
 		kind = vDecor
 	}
+	h.nRegsDrawn++
 	f := h.genFunc(kind, tag)
 	if h.p.distinct {
 		h.assumeDistinct(f)
@@ -737,7 +759,7 @@ func (h *vHist) skeleton() []func() []vOp {
 			}
 			return h.genInvoke(ops, "i"+vItoa(j))
 		})
-		if j == 0 {
+		if j == h.p.lateAfter {
 			for i := 0; i < h.p.lateRegs; i++ {
 				i := i
 				steps = append(steps, func() []vOp { return h.genReg(nil, "l"+vItoa(i)) })
@@ -812,12 +834,8 @@ func (h *vHist) apply(w *vWorld, ops []vOp) {
 			if h.p.noMissing {
 				verifAssume(!cl.missing)
 			}
-			rc := false
-			if h.enabled("C05s.") {
-				rc = w.resCycle(op.scope, op.f.params, nil, nil)
-				w.resCyc = rc
-				w.permCyc = w.permissiveCycle(nil)
-			}
+			w.resCyc = w.resCycle(op.scope, op.f.params, nil, nil)
+			w.permCyc = w.permissiveCycle(nil)
 			w.inv = cl
 			before := h.execCounts(w)
 			r, o := w.invoke(op.f, op.scope)
